@@ -415,7 +415,8 @@ pub fn step(s: &State, op: Op, cfg: &JudgeCfg) -> StepResult {
         Ok(o) => o,
         Err(msg) => {
             fails.push(mk(
-                C01 | C08 | opp,
+                // (after a round trip every aspect of the copy is the user's arena from now on)
+                C01 | C08 | opp | if matches!(op, Op::RoundTrip) { C11 | C12 | C06 | C07 } else { 0 },
                 "observe",
                 true,
                 &op,
@@ -466,7 +467,23 @@ pub fn step(s: &State, op: Op, cfg: &JudgeCfg) -> StepResult {
             "valid-call-panicked",
             format!("a valid call panicked: {msg}"),
         )),
-        (Expect::Refuses(r), Outcome::Err(v, _)) => {
+        (Expect::Refuses(r), Outcome::Err(v, text)) => {
+            // the Display text must not describe another operation than the variant names
+            let words: Vec<String> = text.to_lowercase().split(|c: char| !c.is_alphabetic()).map(|w| w.to_string()).collect();
+            let has = |w: &str| words.iter().any(|x| x == w);
+            let contradicts = (v.contains("After") && has("before")) || (v.contains("Before") && has("after"))
+                || (v.starts_with("Append") && has("prepend")) || (v.starts_with("Prepend") && has("append"));
+            if contradicts {
+                fails.push(mk(
+                    C05,
+                    "outcome",
+                    false,
+                    &op,
+                    class,
+                    "reason-text-names-another-operation",
+                    format!("the error {v} displays as {text:?}"),
+                ));
+            }
             if !applicable(v, *r) {
                 fails.push(mk(
                     C05,
@@ -658,6 +675,17 @@ pub fn step(s: &State, op: Op, cfg: &JudgeCfg) -> StepResult {
         }
         for &x in &new_slots {
             let nid = obs1[x].id;
+            if x < s.obs.len() && s.obs[x].removed && s.obs[x].id == nid {
+                fails.push(mk(
+                    C06,
+                    "fresh-id",
+                    false,
+                    &op,
+                    class,
+                    "id-equals-the-id-reported-for-the-removed-node",
+                    format!("the new id {} is the id get_node_id() already handed out for the removed node in that slot", fmt_id(Some(nid))),
+                ));
+            }
             if x < s.issued.len() && s.issued[x].contains(nid) {
                 fails.push(mk(
                     C06,
